@@ -495,7 +495,8 @@ def presentOr (f : Field) (vals : List (Option Val)) (params : List Nat) : Bool 
 /-- BLOCK set TL2 masks from TL1 masks (uses the masks as they are *before* propagation) -/
 def rsTl2Set (params : List Nat) (vals0 : List (Option Val)) (slots : List Slot) : List Bool :=
   slots.map (fun sl =>
-    if sl.presented then (if sl.f.isBit then sl.trueVal else true) else presentOr sl.f vals0 params)
+    if sl.presented then (if sl.f.isBit then sl.trueVal else true)
+    else sl.f.mask.isSome && presentOr sl.f vals0 params)     -- TL2-origin fields have no TL1 mask to copy from
 
 /-- does this slot imply its mask bits (a presented field, or a true-typed field given as `true`) -/
 def Slot.implies (sl : Slot) : Bool := sl.f.mask.isSome && (if sl.f.isBit then sl.trueVal else sl.presented)
@@ -523,7 +524,7 @@ def rsFin (d : Desc) (fuel : Nat) (rj : Rj) (s : StructD) (params : List Nat) (v
     | .error e => .error e
     | .ok rest =>
       let f := sl.f
-      let tl1 := presentOr f vals1 params
+      let tl1 := f.mask.isSome && presentOr f vals1 params
       if fieldOmitted s f then .ok (none :: rest) else
       -- the value Go holds in the field (relevant when the field is present for TL1 or for TL2)
       let actual : Except CErr (Option Val) :=
